@@ -225,6 +225,7 @@ theorem kruskal_ttvCore_spec [CommSemiring α] (K : Ktensor α) (pairs : List (N
     ∃ r, K.ttvCore pairs = .ok r ∧ kresShape r = Spec.ttvShape K.shape (pairs.map (·.1)) ∧
       (∀ K', r = .obj K' → K'.weights.length = K.weights.length ∧
         K'.factors = gatherD K.factors (complDims K.factors.length (pairs.map (·.1))) []) ∧
+      ((∃ v, r = .scalar v) ↔ complDims K.factors.length (pairs.map (·.1)) = []) ∧
       ∀ i, InBounds (kresShape r) i → kresGet r i = Spec.ttv K.den (pairs.map (·.1)) w i := by
   set N := K.factors.length with hN
   set sel := pairs.map (·.1) with hsel
@@ -255,7 +256,7 @@ theorem kruskal_ttvCore_spec [CommSemiring α] (K : Ktensor α) (pairs : List (N
     rw [hw p hp]
   by_cases hre : rem.isEmpty = true
   · have hrem0 : rem = [] := List.isEmpty_iff.1 hre
-    refine ⟨.scalar neww.sum, ?_, ?_, ?_, ?_⟩
+    refine ⟨.scalar neww.sum, ?_, ?_, ?_, ⟨fun _ => hrem0, fun _ => ⟨_, rfl⟩⟩, ?_⟩
     · unfold Ktensor.ttvCore
       simp only [g1, g2, Bool.false_eq_true, if_false, ← hN, ← hsel, ← hrem, hre, if_true, ← hneww]
     · rw [hshape, hrem0]; rfl
@@ -270,7 +271,8 @@ theorem kruskal_ttvCore_spec [CommSemiring α] (K : Ktensor α) (pairs : List (N
       intro r hr
       rw [l2 r (List.mem_range.1 hr), hprod r]
       simp
-  · refine ⟨.obj ⟨neww, gatherD K.factors rem []⟩, ?_, ?_, ?_, ?_⟩
+  · refine ⟨.obj ⟨neww, gatherD K.factors rem []⟩, ?_, ?_, ?_,
+      ⟨(fun ⟨v, h⟩ => by cases h), fun h => absurd (by rw [h]; rfl) hre⟩, ?_⟩
     · unfold Ktensor.ttvCore
       simp only [g1, g2, Bool.false_eq_true, if_false, ← hN, ← hsel, ← hrem, hre, ← hneww]
     · rw [hshape]
@@ -305,13 +307,15 @@ theorem kruskal_ttv_dims [CommSemiring α] (K : Ktensor α) (d : List Nat) (vs :
     (hsz : ∀ p ∈ d.zip vs, p.2.length = K.shape.getD p.1 0)
     (w : Nat → Nat → α) (hw : ∀ p ∈ d.zip vs, ∀ k, w p.1 k = p.2.getD k 0) :
     ∃ r, K.ttv vs (some (d.map Int.ofNat)) none = .ok r ∧ kresShape r = Spec.ttvShape K.shape d ∧
+      ((∃ v, r = .scalar v) ↔ complDims K.factors.length d = []) ∧
       ∀ i, InBounds (kresShape r) i → kresGet r i = Spec.ttv K.den d w i := by
   obtain ⟨pairs, e, hs, hp⟩ := resolve_dims_P K.factors.length vs d hd hN hl
   obtain ⟨f1, f2, f3, f4⟩ := pairs_facts K.shape List.length d vs pairs hd
     (by rw [kshape_length]; exact hN) hl hsz hs hp
-  obtain ⟨r, hr, hsh, _, hg⟩ := kruskal_ttvCore_spec K pairs f1 (by rw [← kshape_length]; exact f2) f3 w
+  obtain ⟨r, hr, hsh, _, hk, hg⟩ := kruskal_ttvCore_spec K pairs f1 (by rw [← kshape_length]; exact f2) f3 w
     (fun p hp' => hw p (hp.subset hp'))
-  refine ⟨r, by unfold Ktensor.ttv; rw [e]; exact hr, by rw [hsh, spec_ttvShape_perm _ f4], ?_⟩
+  refine ⟨r, by unfold Ktensor.ttv; rw [e]; exact hr, by rw [hsh, spec_ttvShape_perm _ f4],
+    by rw [hk, complDims_perm f4], ?_⟩
   intro i hi
   rw [hg i hi, spec_ttv_perm _ f4]
 
@@ -482,7 +486,7 @@ theorem kruskal_mttkrp_fs [CommSemiring α] (K : Ktensor α) (Uop : KOperand α)
     (hrows : ∀ m, m < K.factors.length → m ≠ n → (fs.getD m []).length = (K.factors.getD m []).length)
     (hcols : ∀ m, m < K.factors.length → m ≠ n → ∀ row ∈ fs.getD m [], row.length = R)
     (hpos : ∀ m, m < K.factors.length → m ≠ n → 0 < (K.factors.getD m []).length) :
-    ∃ V, K.mttkrp Uop n = .ok V ∧
+    ∃ V, K.mttkrp Uop n = .ok V ∧ V.length = (K.factors.getD n []).length ∧ (∀ row ∈ V, row.length = R) ∧
       ∀ i r, i < (K.factors.getD n []).length → r < R →
         V.get i r = Spec.mttkrp K.den (fun m x c => (fs.getD m []).get x c) (fun _ => 1) n i r := by
   set N := K.factors.length with hN
@@ -508,11 +512,14 @@ theorem kruskal_mttkrp_fs [CommSemiring α] (K : Ktensor α) (Uop : KOperand α)
   refine ⟨(K.factors.getD n []).mulD ((List.range K.ncomp).map fun r' => (List.range R).map fun r =>
       ((List.range N).filter (· != n)).foldl
         (fun acc i => acc * ((K.factors.getD i []).tmul (fs.getD i []) K.ncomp R).get r' r) (K.weights.getD r' 0))
-      (K.factors.getD n []).length K.ncomp R, ?_, ?_⟩
+      (K.factors.getD n []).length K.ncomp R, ?_, by simp [Mat.mulD], ?_, ?_⟩
   · unfold Ktensor.mttkrp
     simp only [← hN, hfs, hR]
     rw [if_neg (by omega), if_neg (by omega), hguard]
     simp only [Bool.false_eq_true, if_false]
+  · intro row hrow
+    obtain ⟨a, _, rfl⟩ := List.mem_map.1 hrow
+    simp
   · intro i r hi hr
     rw [mulD_get _ _ _ _ _ _ _ hi hr, spec_mttkrp_kruskal K _ _ n i r hn hi, one_mul]
     apply sumRange_congr
@@ -532,7 +539,7 @@ theorem kruskal_mttkrp_list_spec [CommSemiring α] (K : Ktensor α) (U : List (M
     (hrows : ∀ m, m < K.factors.length → m ≠ n → (U.getD m []).length = (K.factors.getD m []).length)
     (hcols : ∀ m, m < K.factors.length → m ≠ n → ∀ row ∈ U.getD m [], row.length = R)
     (hpos : ∀ m, m < K.factors.length → m ≠ n → 0 < (K.factors.getD m []).length) :
-    ∃ V, K.mttkrp (.list U) n = .ok V ∧
+    ∃ V, K.mttkrp (.list U) n = .ok V ∧ V.length = (K.factors.getD n []).length ∧ (∀ row ∈ V, row.length = R) ∧
       ∀ i r, i < (K.factors.getD n []).length → r < R →
         V.get i r = Spec.mttkrp K.den (fun m x c => (U.getD m []).get x c) (fun _ => 1) n i r := by
   apply kruskal_mttkrp_fs K (.list U) U n R ?_ hN2 hn hrows hcols hpos
@@ -605,15 +612,15 @@ theorem kruskal_mttkrp_kruskal_spec [CommSemiring α] (K L : Ktensor α) (n R : 
     (hrows : ∀ m, m < K.factors.length → m ≠ n → (L.factors.getD m []).length = (K.factors.getD m []).length)
     (hcols : ∀ m, m < K.factors.length → m ≠ n → ∀ row ∈ L.factors.getD m [], row.length = R)
     (hpos : ∀ m, m < K.factors.length → m ≠ n → 0 < (K.factors.getD m []).length) :
-    ∃ V, K.mttkrp (.kruskal L) n = .ok V ∧
+    ∃ V, K.mttkrp (.kruskal L) n = .ok V ∧ V.length = (K.factors.getD n []).length ∧ (∀ row ∈ V, row.length = R) ∧
       ∀ i r, i < (K.factors.getD n []).length → r < R →
         V.get i r = Spec.mttkrp K.den (fun m x c => (L.factors.getD m []).get x c)
           (fun r => L.weights.getD r 0) n i r := by
   obtain ⟨fs, hfs, f1, f2, f3⟩ := getMttkrpFactors_kruskal L n K.factors.length R hN2 hn hlen hw
-  obtain ⟨V, hV, hval⟩ := kruskal_mttkrp_fs K (.kruskal L) fs n R hfs hN2 hn
+  obtain ⟨V, hV, hV1, hV2, hval⟩ := kruskal_mttkrp_fs K (.kruskal L) fs n R hfs hN2 hn
     (fun m hm hmn => by rw [f1 m hm]; exact hrows m hm hmn)
     (fun m hm hmn => f2 m hm (hcols m hm hmn)) hpos
-  refine ⟨V, hV, ?_⟩
+  refine ⟨V, hV, hV1, hV2, ?_⟩
   intro i r hi hr
   rw [hval i r hi hr, f3 K.den (kshape_length K) i r]
 
